@@ -173,6 +173,7 @@ struct Shared {
     next_id: u64,
     sid_host: Vec<usize>, // index = sid
     ports: Vec<BTreeSet<u16>>, // per host: model ports currently bound (as the puppets report)
+    busy: Vec<bool>,           // per host: the puppet is in the middle of its script (blocked in a call)
 }
 
 fn payload(id: u64, sid: u64, len: usize) -> Vec<u8> {
@@ -330,6 +331,7 @@ async fn puppet(h: usize, shared: Rc<RefCell<Shared>>, notify: Rc<Notify>) -> tu
     loop {
         notify.notified().await;
         rec::emit(json!({"ev":"wake","h":h}));
+        shared.borrow_mut().busy[h] = true;
         loop {
             let c = shared.borrow_mut().cmds[h].pop_front();
             match c {
@@ -337,6 +339,7 @@ async fn puppet(h: usize, shared: Rc<RefCell<Shared>>, notify: Rc<Notify>) -> tu
                 None => break,
             }
         }
+        shared.borrow_mut().busy[h] = false;
     }
 }
 
@@ -386,6 +389,7 @@ impl<'a> Run<'a> {
             next_id: 0,
             sid_host: vec![0],
             ports: (0..=cfg.n).map(|_| BTreeSet::new()).collect(),
+            busy: vec![false; cfg.n + 1],
         }));
         let mut notifies = vec![Rc::new(Notify::new())];
         let mut addrs = vec![IpAddr::V4(Ipv4Addr::UNSPECIFIED)];
@@ -957,6 +961,10 @@ fn main_random(args: &[String]) {
             for s in 0..steps {
                 let mut per: Vec<(usize, Vec<Cmd>)> = Vec::new();
                 for h in 1..=n {
+                    // a host still blocked in an earlier call (recv_from under a timeout) gets nothing new
+                    if run.shared.borrow().busy[h] || !run.shared.borrow().cmds[h].is_empty() {
+                        continue;
+                    }
                     let mut cmds = Vec::new();
                     let mut pend_eph = 0usize;
                     let k = if s < 2 { 2 } else { rng.random_range(0..=3) };
